@@ -370,7 +370,7 @@ pub fn render_direct(ops: &[DOp], h: &[u16]) -> String {
 pub fn direct(ctx: &Ctx) -> (u64, u64, bool, usize) {
     let ops = direct_alphabet();
     let depth = ctx.tier.pick(5, 7);
-    let cfg = BfsCfg { max_depth: depth, max_states: 60_000_000, max_secs: ctx.tier.pick(15.0, 300.0) };
+    let cfg = BfsCfg { max_depth: depth, max_states: 60_000_000, max_secs: ctx.tier.pick(200.0, 300.0) };
     let root = {
         let (s, p) = run_direct(&ops, &[]).unwrap();
         direct_key(&s, &p)
@@ -416,7 +416,7 @@ pub fn direct(ctx: &Ctx) -> (u64, u64, bool, usize) {
         vec![NewEl(0), NewEl(0), NewEl(5), NewComment, Append(0, 1), Append(0, 2), Append(1, 3), Append(1, 4), AppendText(2, 0), AppendText(1, 1)],
     ];
     let pdepth = ctx.tier.pick(3, 4);
-    let pcfg = BfsCfg { max_depth: pdepth, max_states: 60_000_000, max_secs: ctx.tier.pick(12.0, 300.0) };
+    let pcfg = BfsCfg { max_depth: pdepth, max_states: 60_000_000, max_secs: ctx.tier.pick(200.0, 300.0) };
     let mut roots = vec![];
     for p in &preps {
         let h: Vec<u16> = p.iter().map(|o| idx(*o)).collect();
